@@ -114,7 +114,8 @@ class P2PDatagramProtocol(DatagramProtocol, LoggingTrait):
             self.transport.sendto(bytes([0x00]), address)
             return
 
-        response_address = (address[0], self.p2p_port)
+        # same as RDAC accept: the repeater's stored outbound address, not whoever listens on the P2P port of that ip
+        response_address = rpt.address_out
 
         data = bytearray(data)
         # set DMR id
